@@ -62,16 +62,16 @@ Section Stream.
     | _, _ => False
     end.
 
-  Lemma read_stream_is_rfc_lemma : forall ws ms ctx run,
+  Lemma read_stream_is_rfc_lemma : forall origin ws ms ctx run,
     ctx_matches ctx run ->
     Forall (fun w => all_bytes w = true) ws ->
-    read_stream H ws (KR_Key k) rmac ctx now = map Ok ms ->
+    read_stream_gen H origin ws (KR_Key k) rmac ctx now = map Ok ms ->
     stream_spec run ws ms.
   Proof.
-    induction ws as [|w ws IH]; intros ms ctx run CM AB E.
+    intros origin. induction ws as [|w ws IH]; intros ms ctx run CM AB E.
     - destruct ms; [exact Logic.I|discriminate].
-    - inversion AB as [|? ? Aw AB']; subst. cbn [read_stream] in E.
-      destruct (read H w (KR_Key k) rmac ctx true now) as [m| |] eqn:R.
+    - inversion AB as [|? ? Aw AB']; subst. cbn [read_stream_gen] in E.
+      destruct (read_gen H origin w (KR_Key k) rmac ctx true now) as [m| |] eqn:R.
       2,3: destruct ms as [|m0 [|]]; cbn in E; discriminate.
       destruct ms as [|m0 ms]; [discriminate|]. cbn [map] in E.
       inversion E as [[Em Erest]]. subst m0. clear E.
